@@ -38,6 +38,13 @@ var props = map[string]propMeta{
 		Probes:      []string{"retransmitted", "accepted_while_down", "completed_publish", "short_write_timeout", "write_break", "read_expiry", "dial_fail", "disk_err_before_S", "disk_err_before_D", "disk_err_before_L"},
 		QuickS:      20, ThoroughS: 300,
 	},
+	"C02": {
+		Level: "fault_enumeration",
+		Rule: "family stops: for a seeded base run of the publish flow (both levels, light fault mix) with K storage operations after InitSession, the same seed is re-run 2K times with the process stopped before and after every Save/Delete/Load/List (an interrupted Save or Delete reaches the medium or not by draw), then AdoptSession on the frozen image against the same broker model, 2-4 incarnations with fresh publishes in each, later stops (also inside AdoptSession itself) at drawn operation boundaries; family anywhere: stops at any scheduler step. Oracle at the adopted client's first Online: lower (accepted, final acknowledgement not handed over) is a subset of the resumed set, which is a subset of upper (lower + still stored), original identifiers and order, stage PUBREL exactly when the stored record is a PUBREL; no warnings or fatal; nothing lost and no exactly-once duplicate after the last incarnation quiesced." + distinctRule + " non-trivial = a transfer was resumed after a restart",
+		Assumptions: append([]string{"the crash model is a process stop: the Persistence keeps exactly what completed operations wrote, plus possibly the one operation in progress", "sweeps are complete over the storage-operation boundaries of each sampled base run, not over all base runs"}, flowAssumptions...),
+		Probes:      []string{"resumed_after_restart", "second_restart_checked", "stop_before_op", "stop_after_op", "stop_anywhere"},
+		QuickS:      25, ThoroughS: 400,
+	},
 	"C03": {
 		Level: "exploration",
 		Rule: "seeded runs of the general flow with exactly-once publishes (70-100 %), faults of C01; oracles: no PUBLISH after the PUBREL record was stored, PUBREL present at every Online, broker delivery log has each exactly-once message at most once." + distinctRule + " non-trivial = a fault fired and a PUBREL or PUBLISH was retransmitted",
